@@ -48,6 +48,8 @@ def run(ctx):
     d2_bracket(ctx)
     d3_wiring(ctx)
     d3_dispatch(ctx)
+    from . import units
+    units.run(ctx, "D3/T8-dimensional-homogeneity", {J2}, min_scenarios=8)
     frames.run_frames_state_only(ctx, "D1/T9-frames", [f"{J2}:compute_state_new_finite_deformations"])
     from . import tensorid
     tensorid.run_identities(ctx, "D1/T7-tensor-helper-identities", ["inv", "deviator", "norm_of_deviator_squared"])
@@ -435,6 +437,8 @@ def variants(repo):
         Variant("exp of the whole increment", J, sub_in_func("compute_state_new_finite_deformations", "TensorMath.exp_symm(stateInc[PLASTIC_DISTORTION].reshape((3,3)))@FpOld", "TensorMath.exp_symm(stateInc[PLASTIC_DISTORTION].reshape((3,3)).T + np.identity(3))@FpOld"), "D1/T5-state-layout"),
         Variant("plastic update order", J, sub_in_func("compute_state_new_finite_deformations", "TensorMath.exp_symm(stateInc[PLASTIC_DISTORTION].reshape((3,3)))@FpOld", "FpOld@TensorMath.exp_symm(stateInc[PLASTIC_DISTORTION].reshape((3,3)))"), "D1/T9-frames"),
         Variant("bracket lower end 0", J, sub_in_func("update_state", "    lb = eqpsOld\n", "    lb = 0.0\n"), "D2/T2-bracket-roles"),
+        Variant("kinetic potential without dt", "optimism/material/Hardening.py", sub("    return m/(m + 1)*S*epsDot0*dt*(eqpsDot/epsDot0)**((m+1)/m)", "    return m/(m + 1)*S*epsDot0*(eqpsDot/epsDot0)**((m+1)/m)"), "D3/T8-dimensional-homogeneity"),
+        Variant("strain rate normalised by a strain", "optimism/material/Hardening.py", sub("        epsDot0 = properties['reference plastic strain rate']", "        epsDot0 = properties['reference plastic strain']"), "D3/T8-dimensional-homogeneity"),
         Variant("upper end is the root without hardening", J, sub_in_func("update_state", "    ub = eqpsOld + trialMises/(3.0*props[PROPS_MU])\n", "    ub = ub + 0.0\n"), "D2/T2-bracket-roles"),
         Variant("upper end too close", J, sub_in_func("update_state", "    ub = eqpsOld + trialMises/(3.0*props[PROPS_MU])\n", "    ub = eqpsOld + trialMises/(6.0*props[PROPS_MU])\n"), "D2/T2-bracket-roles"),
         Variant("upper end below lower end", J, sub_in_func("update_state", "    ub = eqpsOld + trialMises/(3.0*props[PROPS_MU])\n", "    ub = eqpsOld - trialMises/(3.0*props[PROPS_MU])\n"), "D2/T2-bracket-roles"),
